@@ -207,7 +207,7 @@ def assemble(prop, verdict, runs, rule, assumptions, tlc_props, need=(), owns=No
         if not per_action.get(n) and not counters.get(n):
             raise core.MachineryError("vacuity: %s never explored (%s)" % (n, sorted(per_action)))
     truncated = counters.get("truncated", 0)
-    if replayed and truncated > 0.10 * replayed and not (extra or {}).get("allow_truncation"):
+    if replayed and truncated > 0.10 * replayed and not (extra or {}).get("allow_truncation") and not verdict.violations:
         raise core.MachineryError("vacuity: %d of %d replays truncated by an earlier divergence" % (truncated, replayed))
     coverage = {"states": states, "transitions": exported,
                 "traces_validated_against_impl": replayed - truncated,
